@@ -179,6 +179,22 @@ var closedInners = []string{
 	"@component(\"d\")@slot(\"s\")z@end @slot@end@end", "@component(\"d\")", "@component(\"d\", {a: 1})", "{{-- c --}}", "{{ 1 }}", "@break", "@continue", "@breakIf(x)", "@dump(x)", "@reserve(\"r\")", "@use(\"l\")",
 }
 
+// complete templates that are wrong in their structure (a clause, a branch, an argument or a closer too many or too few)
+var structuralFaults = []string{
+	"@for(i = 0; i < 3; i++; j = 1)y@end", "@for(i = 0; i < 3; i++; j = 1; k = 2)y@end", "@for(i = 0; i < n; i++; i = i + 1\n@end", "@for(i = 0)y@end", "@for(i = 0; i < 3)y@end", "@for()y@end",
+	"@each(x in y)a@else b@else c@end", "@each(x in y)a@else b@else c@else d@end", "@each(x in y)a@else b@elseif(z)c@end", "@for(;;)a@else b@else c@end",
+	"@if(a)x@else y@else z@end", "@if(a)x@else y@elseif(b)z@end", "@if(a)x@else y@elseif(b)z@else w@end", "@if(a)x@end@end", "@if(a)x@elseif()y@end", "@if()x@end", "@if(a b)x@end",
+	"@each(x in y, z)a@end", "@each(x y)a@end", "@each(x in)a@end", "@each(in y)a@end", "@each(x, i in y)a@end", "@each(1 in y)a@end",
+	"@component(\"c\", {a: 1}, 2)", "@component(\"c\", 5)", "@component(\"c\", \"d\")", "@component(\"c\", x)", "@component(\"c\", [1, 2])", "@component()", "@component(c)", "@component(\"c\")@slot(\"a\", \"b\")x@end@end",
+	"@component(\"c\")@slot(a)x@end@end", "@component(\"c\")@slot(1)x@end@end", "@component(\"c\")@slot x@end@slot y@end@end",
+	"@insert(\"a\", 1, 2)", "@insert()", "@insert(a)", "@insert(\"a\", 1)x@end", "@use(\"a\", \"b\")", "@use()", "@use(a)", "@use(1)", "@reserve(\"a\", 1)", "@reserve()", "@reserve(r)",
+	"@slot(\"a\", \"b\")", "@dump()", "@dump(a,)", "@dump(, a)", "@breakIf()", "@breakIf(a, b)", "@continueIf()", "@continueIf(a b)",
+	"{{ a b }}", "{{ 1 2 }}", "{{ x = = 1 }}", "{{ x = }}", "{{ = 1 }}", "{{ a ? b }}", "{{ a ? b : }}", "{{ a ? : c }}", "{{ ? b : c }}", "{{ [1 2] }}", "{{ [1,, 2] }}", "{{ {a 1} }}", "{{ {a: 1 b: 2} }}", "{{ {: 1} }}", "{{ {1: 1} }}",
+	"{{ f(1 2) }}", "{{ x.f(1,, 2) }}", "{{ x. }}", "{{ x.1 }}", "{{ x..y }}", "{{ x[ }}", "{{ x[1 }}", "{{ x[] }}", "{{ x[1, 2] }}", "{{ 1 + }}", "{{ + 1 }}", "{{ * }}", "{{ () }}", "{{ (1 }}", "{{ 1) }}", "{{ ++ }}", "{{ x ++ ++ }}",
+	"{{ 99999999999999999999 }}", "{{ 1.2.3 }}", "{{ 1. }}", "{{ .5 }}", "{{ }}", "{{ ; }}", "{{ 1; 2 }}", "{{ 1;; }}", "{{ x = 1; }}",
+	"@end", "@else", "@elseif(x)", "@slot x@end", "@slot(\"s\")x@end", "@break@end", "x@else y@end", "@if(a)x@elseif(99999999999999999999)@end", "@if(a)x@elseif(user.)@elseif(b)y@end", "@if(a)x@elseif(list[0)@else z@end",
+}
+
 var truncationPrefixes = []string{"", "text ", "{{ 1 }}", "@if(true)in\n", "line1\nline2\n", "{{-- c --}}", "@each(q in [1])"}
 
 func init() {
@@ -313,6 +329,27 @@ func init() {
 								continue
 							}
 							parseContract(c, t.src+b+tail, spanNames[t.kind])
+						}
+					}
+				}})
+			// a second fault next to a first one: an illegal character (or a stray closer) at every offset of templates that are
+			// already wrong in their structure, of every truncation and of every closed construct; parsing still returns
+			secs = append(secs, core.Section{Name: "illegal-character-in-faulty-templates", Exhaustive: true, N: len(structuralFaults) + len(truncations) + len(closedInners),
+				Run: func(c *core.Ctx, i int) {
+					var src string
+					switch {
+					case i < len(structuralFaults):
+						src = structuralFaults[i]
+						parseContract(c, src, "")
+					case i < len(structuralFaults)+len(truncations):
+						src = truncations[i-len(structuralFaults)].src
+					default:
+						src = closedInners[i-len(structuralFaults)-len(truncations)]
+					}
+					for o := 0; o <= len(src); o++ {
+						for _, ch := range []string{"#", "~", "\x00", "\\", "$ ", " & ", "@", "@end", "}}", ")"} {
+							parseContract(c, src[:o]+ch+src[o:], "")
+							c.Count("second_faults_injected", 1)
 						}
 					}
 				}})
